@@ -100,7 +100,7 @@ func init() {
 				}
 			}
 			denseAllocatorCases(add)
-			rangeSplitCases(add) // kept intervals split by later ones: every accepted range stays matched by what it denotes
+			rangeSplitCases(add)      // kept intervals split by later ones: every accepted range stays matched by what it denotes
 			rangeDomainEdgeHists(add) // a configured domain [RangeMin, RangeMax): ranges at its edges index what they denote inside it, nothing else
 			// end to end: accepted => matchable.  One document per value; queries with candidate values.
 			cands := []int64{0, 1, 2, 3, 5, 7, 8, 9, 10, -3, 4, 127, 255, 1000, 2000, 64, 100, -15, -17, 11, 1500, 250, 15}
